@@ -410,6 +410,13 @@ def classify(module, typename, syntax, status, stderr="", facts=()):
         return "C01-set-no-per-oer"
     if per_oer and status == "ENCFAIL:EBADF" and "set_nested" in facts and nested_sets(module, typename):
         return "C01-set-no-per-oer"
+    if status == "CRASH" and syntax == "cper" and re.search(r"#0 0x[0-9a-f]+ in SET_OF_encode_uper", stderr) \
+            and ("null pointer" in stderr or "SEGV" in stderr) and has_node(module, typename, lambda n: n["k"] == "SET OF") \
+            and ("semi_lb" in facts or "set_nested" in facts or uses_alias_of(module, typename, "CHOICE")
+                 or uses_alias_of(module, typename, "ENUMERATED")):
+        # an element of a SET OF cannot be UPER-encoded (for one of the known reasons): SET_OF__encode_sorted returns
+        # NULL and SET_OF_encode_uper reads through it
+        return "C01-setof-uper-unchecked-sorted"
     if per_oer and status == "CRASH" and "set_nested" in facts and nested_sets(module, typename) \
             and ("SEGV" in stderr or "null pointer" in stderr) and any(f in stderr for f in NULL_CALL_FRAMES):
         return "C01-set-nested-null-codec"
